@@ -573,6 +573,23 @@ func sec2D(r *vlib.Run) {
 		default:
 			c.Count("subdivide2d.masks_matched", 1)
 		}
+		// the variant for meshes that may contain open paths does the same on a closed outline
+		const apiP = "model2d.Mesh.SubdividePath"
+		outP := vlib.Segs(in.mesh.SubdividePath(iters))
+		c.Count("calls."+apiP, 1)
+		if len(outP) != n {
+			c.Violationf(apiP+"/segment-count", in.witness(extra), "%d segments, expected 2^iters*N = %d", len(outP), n)
+		}
+		checkTopo2(c, apiP, in, outP, true, len(pts), extra)
+		resP := matchSegs(pts, segs, outP, 1e-12*(in.maxA+in.size))
+		switch {
+		case resP.undecided:
+			c.Undecided("chaikin:" + resP.msg)
+		case !resP.ok:
+			c.Violation(apiP+"/corner-cutting-masks", "on a closed outline the result differs from Chaikin corner cutting recomputed independently: "+resP.msg, in.witness(extra))
+		default:
+			c.Count("subdivide2d.path_variant_masks_matched", 1)
+		}
 	})
 
 	r.Section("2d-blur-smooth", r.N(1200, 16000), vlib.SectionOpts{}, func(c *vlib.Case) {
